@@ -2247,6 +2247,9 @@ class BaseInterpreter(Generic[TContext, TEvent]):
                 #    forever without ever yielding to the event loop.
                 if getattr(self, "_processing", False):
                     self._raise_depth = getattr(self, "_raise_depth", 0) + 1
+                    marks = getattr(self, "_self_raised", None)
+                    if marks is not None:
+                        marks.add(id(done_event))
                 await self.send(done_event)
                 # Per SCXML, only fire for the first completed ancestor.
                 return
